@@ -101,9 +101,13 @@ def normalise(t, depth=0):
 
 def _unsat(s, *facts):
     s.push()
-    s.add(*facts)
-    r = s.check()
-    s.pop()
+    try:
+        s.add(*facts)
+        r = s.check()
+    except z3.Z3Exception:
+        r = z3.unknown
+    finally:
+        s.pop()
     return r == z3.unsat
 
 
@@ -376,3 +380,42 @@ def prove_equal(s: z3.Solver, lhs, rhs) -> bool:
     for p in rest:
         total = total + (z3.ToReal(p) if p.sort() == z3.IntSort() else p)
     return _unsat(s, total != 0)
+
+
+def _eq_facts(s, limit=40):
+    """equalities  p == q  among the assertions of s (also inside  hyp -> (p == q)  clauses whose hypothesis is entailed)
+    where p or q contains a sum"""
+    out = []
+
+    def consider(f, guards):
+        if z3.is_eq(f) and f.arg(0).sort() in (z3.RealSort(), z3.IntSort()) and (contains_sum(f.arg(0)) or contains_sum(f.arg(1))):
+            if not guards or _unsat(s, z3.Not(z3.And(*guards))):
+                out.append((f.arg(0), f.arg(1)))
+        elif z3.is_implies(f):
+            consider(f.arg(1), guards + [f.arg(0)])
+        elif z3.is_or(f):
+            ch = f.children()
+            eqs = [c for c in ch if z3.is_eq(c) and (contains_sum(c.arg(0)) or contains_sum(c.arg(1)))]
+            if len(eqs) == 1:
+                consider(eqs[0], guards + [z3.Not(c) for c in ch if not c.eq(eqs[0])])
+        elif z3.is_and(f):
+            for c in f.children():
+                consider(c, guards)
+
+    for a in s.assertions():
+        consider(a, [])
+        if len(out) >= limit:
+            break
+    return out
+
+
+def prove_via_facts(s, a, b) -> bool:
+    for p, q in _eq_facts(s):
+        for x, y in ((p, q), (q, p)):
+            for g1, g2 in ((a, b), (b, a)):
+                try:
+                    if prove_equal(s, g1, x) and (g2.eq(y) or prove_equal(s, g2, y) or _unsat(s, g2 != y)):
+                        return True
+                except z3.Z3Exception:
+                    pass
+    return False
